@@ -214,6 +214,8 @@ func runHistory(c *harness.Ctx, id string, r *rand.Rand) {
 			st = step{Op: "reorg-current"}
 		case x == 9:
 			st = step{Op: "fail-next-fetch"}
+		case x == 10 && r.Intn(2) == 0:
+			st = step{Op: "reorg-during-attest"}
 		case x == 10:
 			st = step{Op: "restart"}
 		default:
@@ -260,6 +262,67 @@ func runHistory(c *harness.Ctx, id string, r *rand.Rand) {
 			env.HeadEvent(cur, prevRoot, curRoot)
 			haveEvent, lastEventEpoch = true, epoch
 			noteFetches()
+		case "reorg-during-attest":
+			// an attestation job is started and, while Attest is in flight, a head event with a changed previous
+			// dependent root arrives; the slot must not be attested a second time
+			epoch := cur / spe
+			var slot uint64
+			for name := range env.PendingOneOff() {
+				var s uint64
+				if scan(name, "Attestations for slot %d", &s) && s/spe == epoch && (slot == 0 || s < slot) {
+					slot = s
+				}
+			}
+			if slot == 0 || epoch < 2 {
+				break
+			}
+			env.StepTo(slot - 1)
+			if _, still := env.PendingOneOff()[fmt.Sprintf("Attestations for slot %d", slot)]; !still {
+				break
+			}
+			env.Clock.SetSlot(phase0.Slot(slot))
+			if slot%spe == 0 {
+				env.Sched.RunSync("Epoch ticker")
+				env.Settle()
+			}
+			if !haveEvent || lastEventEpoch != epoch {
+				if haveEvent {
+					prevRoot, curRoot = curRoot, curRoot+1
+				}
+				env.HeadEvent(slot, prevRoot, curRoot) // records the roots
+				haveEvent, lastEventEpoch = true, epoch
+			}
+			gate := make(chan struct{})
+			env.SetAttestGate(gate)
+			_ = env.Sched.RunJob(context.Background(), fmt.Sprintf("Attestations for slot %d", slot))
+			env.SettleBusy()
+			prevRoot += 100
+			sc.gen[epoch]++
+			sc.install(env.Duties, epoch, epoch)
+			// the slot that is being attested keeps a duty in the new assignment (that is what tempts a second run)
+			env.Duties.Attester[epoch] = append(env.Duties.Attester[epoch], &apiv1.AttesterDuty{Slot: phase0.Slot(slot), ValidatorIndex: phase0.ValidatorIndex(vals[0]), CommitteeIndex: 1, CommitteeLength: 64, CommitteesAtSlot: 3, ValidatorCommitteeIndex: 3})
+			ev := &apiv1.HeadEvent{Slot: phase0.Slot(slot)}
+			ev.Block[0], ev.PreviousDutyDependentRoot[0], ev.CurrentDutyDependentRoot[0] = byte(slot), prevRoot, curRoot
+			env.Bus.Emit("head", ev)
+			env.SettleBusy()
+			env.SetAttestGate(nil)
+			close(gate)
+			env.Sched.Wait()
+			env.Settle()
+			env.RunDueJobs(env.Clock.StartOfSlot(phase0.Slot(slot + 1)))
+			noteFetches()
+			c.Count("reorgs_during_attestation", 1)
+			// the in-flight run was handed the assignment of before the reorg: judge only the count for it
+			evs := env.Recorded()
+			for _, e2 := range evs[consumed:] {
+				if e2.Kind == "attest" {
+					attested[e2.Slot]++
+					if attested[e2.Slot] > 1 {
+						fail("slot-attested-twice:reorg-during-attestation", fmt.Sprintf("Attest ran twice for slot %d (head event with changed dependent root while the first run was in flight)", e2.Slot))
+					}
+				}
+			}
+			consumed = len(evs)
 		case "restart":
 			// the old instance is dropped; whether it had run the current slot's jobs is part of the history already
 			absorb()
@@ -285,6 +348,53 @@ func runHistory(c *harness.Ctx, id string, r *rand.Rand) {
 		c.Distinct(fmt.Sprintf("%d|%v|%s|%d", spe, h.PropDelay, strings.Join(ks, ","), h.Start%spe))
 	}
 	c.Sample(h)
+}
+
+
+// syncWindow: sync committee message jobs exist for every slot of the window, whenever the controller is started.
+func syncWindow(c *harness.Ctx, id string, r *rand.Rand) {
+	const spe, period = 4, 8
+	vals := []uint64{11, 12, 13}
+	startEpoch := uint64(r.Intn(2 * period))
+	if r.Intn(3) == 0 {
+		startEpoch = uint64(period - 5 + r.Intn(2)*period) // the epoch in which the next period is prepared
+	}
+	start := startEpoch*spe + uint64(r.Intn(spe))
+	env, err := ctlsim.New(ctlsim.Options{SlotsPerEpoch: spe, EpochsPerPeriod: period, StartSlot: start, Validators: vals})
+	if err != nil {
+		c.Inconclusive(err.Error())
+		return
+	}
+	for p := uint64(0); p < 5; p++ {
+		env.Duties.Sync[p] = []*apiv1.SyncCommitteeDuty{{ValidatorIndex: 11, ValidatorSyncCommitteeIndices: []phase0.CommitteeIndex{3}}}
+	}
+	if err := env.Start(); err != nil {
+		c.Inconclusive("controller.New: " + err.Error())
+		return
+	}
+	end := start + period*spe + 2*spe
+	env.StepTo(end)
+	got := map[uint64]int{}
+	for _, ev := range env.Recorded() {
+		if ev.Kind == "sync-message" {
+			got[ev.Slot]++
+		}
+	}
+	for s := start + 1; s < end; s++ {
+		if got[s] == 0 {
+			key := "sync-message-job-missing"
+			if (s+1)/spe/period > startEpoch/period {
+				key += ":next-period"
+			}
+			c.Violate(key, fmt.Sprintf("started in slot %d (epoch %d): no sync committee message run for slot %d", start, startEpoch, s), id, map[string]any{"start_slot": start, "start_epoch": startEpoch, "epochs_per_period": period})
+			break
+		}
+		if got[s] > 1 {
+			c.Violate("sync-message-twice", fmt.Sprintf("sync committee messages ran %d times for slot %d", got[s], s), id, map[string]any{"start_slot": start})
+		}
+	}
+	c.Count("sync_window_slots_checked", int64(end-start-1))
+	c.Distinct(fmt.Sprintf("syncwindow|epoch-in-period:%d|slot:%d", startEpoch%period, start%spe))
 }
 
 func jobNames(env *ctlsim.Env) []string {
@@ -480,6 +590,19 @@ func run(c *harness.Ctx) {
 				defer wg.Done()
 				defer func() { <-sem }()
 				runHistory(c, id, c.Rand("hist", i))
+			}()
+		})
+	}
+	ns := c.N(60, 3000)
+	for i := 0; i < ns; i++ {
+		id := fmt.Sprintf("sync%d", i)
+		c.Case(id, func() {
+			wg.Add(1)
+			sem <- struct{}{}
+			go func() {
+				defer wg.Done()
+				defer func() { <-sem }()
+				syncWindow(c, id, c.Rand("sync", i))
 			}()
 		})
 	}
